@@ -1,2 +1,57 @@
-(* C06 — property theorems (under construction; see Batch/*_proofs.v). *)
-From QV Require Import Batch.Monitor.
+(* C06 — batching wrapper: every caller gets exactly the results of its own pubs; every pub reaches the primitive once.
+   Model: Batch/Monitor.v (BatchingMutexPrimitiveJobRunner.run as a transition system; `reachable v st` = any number of
+   threads, any calls per thread, any pubs per call, any schedule).  All theorems are for every variant whose failure
+   path is the repaired one (HEAD); they do not depend on `ext_wait_timed` or `linger`.
+   The invariant `Inv` (Batch/Inv.v, preserved by every step: Batch/InvNum_proofs.v, Batch/Inv_proofs.v) realises the
+   invariants of DESIGN.md C06 without a ghost batch list, by counting threads per phase:
+     (L) inv_E inv_V inv_I inv_X (owner = Some t iff t's program counter holds the lock);
+     (W) inv_wqI inv_wqX and the N4 clause of th_ok;   (B) inv_tc inv_ec inv_blen and the slice clause of th_ok;
+     (P) inv_one inv_noent inv_ready inv_exec inv_handed inv_inflight;   (Q) inv_idle (+ Route_proofs.reset_when_no_batch);
+     (K) Route_proofs.accounted_step (the permutation is preserved by every step).
+   Property theorems only: each closed by `exact <lemma>` and followed by Print Assumptions. *)
+From QV Require Import Common.Base Batch.Monitor Batch.ListX Batch.Inv Batch.Route Batch.Route_proofs Batch.Live Batch.Live_proofs.
+From Coq Require Import Permutation.
+
+(* A call that returned got the result object of ONE invocation k and a start index such that the wrapper's slice
+   [result[i] for i in range(idx, idx+n)] is exactly R k p for its own pubs p, in order (no IndexError), and its pubs
+   occupy exactly that slot of the argument of invocation k. *)
+Theorem C06_slice : forall (A : Type) (R : nat -> pub -> A) v st pubs k idx,
+  failure_path_repaired v = true -> reachable v st -> returned st pubs (RetOk k idx) ->
+  wrapper_return R (log (sh st)) pubs (RetOk k idx) = Ok (results R k pubs)
+  /\ exists arg, nth_error (log (sh st)) k = Some (arg, true) /\ firstn (length pubs) (skipn idx arg) = pubs.
+Proof. exact @slice_returned. Qed.
+Print Assumptions C06_slice.
+
+(* No call ends in the wrapper's own "Result was not yet ready to retrieve!" ValueError. *)
+Theorem C06_no_spurious_error : forall v st pubs,
+  failure_path_repaired v = true -> reachable v st -> ~ returned st pubs RetValueError.
+Proof. exact never_value_error. Qed.
+Print Assumptions C06_no_spurious_error.
+
+(* In every reachable state: completed invocations ++ invocation in progress ++ open batch ++ not yet entered
+   is a permutation of everything submitted. *)
+Theorem C06_exactly_once : forall v calls sched st,
+  failure_path_repaired v = true -> run v (init_state calls) sched = Some st ->
+  Permutation (accounted st) (submitted calls).
+Proof. exact exactly_once. Qed.
+Print Assumptions C06_exactly_once.
+
+(* At quiescence the primitive has seen every submitted pub exactly once. *)
+Theorem C06_exactly_once_quiescent : forall v calls sched st,
+  failure_path_repaired v = true -> run v (init_state calls) sched = Some st -> all_done st = true ->
+  Permutation (logged (sh st)) (submitted calls).
+Proof. exact exactly_once_quiescent. Qed.
+Print Assumptions C06_exactly_once_quiescent.
+
+(* The invariant all of the above are corollaries of, for every reachable state. *)
+Theorem C06_invariant : forall v st, failure_path_repaired v = true -> reachable v st -> Inv st.
+Proof. exact Inv_proofs.reachable_inv. Qed.
+Print Assumptions C06_invariant.
+
+(* Three threads: T0 and T1 share one batch, T2 forms the next one; quiescent, all three calls returned their slices. *)
+Example C06_nonvacuous :
+  exists st, run (head true) (init_state demo_calls) demo_sched = Some st /\ all_done st = true
+    /\ map t_outs (threads st) = [[([1;2], RetOk 0 0)]; [([3], RetOk 0 2)]; [([4;5;6], RetOk 1 0)]]
+    /\ log (sh st) = [([1;2;3], true); ([4;5;6], true)].
+Proof. exact demo_run. Qed.
+Print Assumptions C06_nonvacuous.
